@@ -202,8 +202,14 @@ def main():
             shutil.copy(os.path.join(d, rel), os.path.join(d, rel + ".orig"))
     if "--match" in sys.argv:
         # re-evaluate the mutants listed in a file of earlier results (matched by file, line, kind and original text)
-        want = {(r["file"], r["line"], r["kind"], r["before"]) for r in (json.loads(l) for l in open(sys.argv[sys.argv.index("--match") + 1]))}
-        ms = [m for m in ms if (m["file"], m["line"], m["kind"], m["before"]) in want]
+        recs = [json.loads(l) for l in open(sys.argv[sys.argv.index("--match") + 1])]
+        if "--match-text" in sys.argv:
+            # the tree has moved on since the earlier campaign: match by file, kind and the mutated text (line numbers have shifted)
+            want = {(r["file"], r["kind"], r["before"], r["after"]) for r in recs}
+            ms = [m for m in ms if (m["file"], m["kind"], m["before"], m["after"]) in want]
+        else:
+            want = {(r["file"], r["line"], r["kind"], r["before"]) for r in recs}
+            ms = [m for m in ms if (m["file"], m["line"], m["kind"], m["before"]) in want]
     rnd = random.Random(seed)
     rnd.shuffle(ms)
     skip = int(sys.argv[sys.argv.index("--skip") + 1]) if "--skip" in sys.argv else 0
